@@ -73,6 +73,11 @@ checks = {
    technique="exhaustive enumeration of (special point content x tree shape x position x import target x preserveIDs) through the real client.ExportNodes / ImportNodes on real stores (two instances for cross-instance import), differential oracle: imported subtree vs exported subtree under one id bijection",
    text="Every combination is built on a fresh store, exported to YAML and imported under the same parent, another parent and another instance, with and without id preservation; shape, node types, every point (type, normalised key, value bit-wise, text, tombstone), edge points, id replacement consistency incl. node-id references, the import marker on the top node only, and absence of deleted nodes are compared.",
    note="Known findings (pinned YAML encoder): 13 exact strings and the class of floats printed as d e+-x. Quick: full content alphabet on one configuration + reduced alphabet on all configurations."),
+ "C04": dict(
+   category="fault_enumeration", design_ref="DESIGN.md §2.5, §3 C04",
+   technique="exhaustive crash-point enumeration: the real writer process (real store on real SQLite files) is SIGKILLed by strace fault injection at EVERY state-changing system call on the store files (first-time initialisation, each write transaction, shutdown/checkpoint), then the real recovery path runs on the surviving files and is compared with the reference states of the acknowledged prefix",
+   text="For every kill point N: the store opens again, root id and signing key are those announced before the crash (a pre-crash token validates), the recovered content equals the reference state after k or k+1 requests where k = acknowledgements received before death (no acknowledged write lost, each batch all-or-nothing), all hashes are consistent (C03 recomputation), the instance accepts a write, and identity is stable over a further restart.",
+   note="Process death only (page cache survives); wal-index (mmap) intermediate states are not separate crash points; strace counts injections per thread, so the writer pins the phase under test to the traced main thread (two writer modes)."),
 }
 pending_reason = "check not built yet in this round (planned in DESIGN.md §3); not claimed until its harness exists"
 m = {
